@@ -15,7 +15,8 @@ import (
 func okDecisions(ds []Decision) []Decision {
 	var out []Decision
 	for _, d := range ds {
-		if d.Err == "" {
+		// an eviction that failed because the pod no longer exists has the effect of an eviction: the pod is gone
+		if d.Err == "" || (d.Kind == "evict" && strings.Contains(d.Err, "not found")) {
 			out = append(out, d)
 		}
 	}
